@@ -49,6 +49,9 @@ CLASSES = {0: 'EscapeSequence', 1: 'BeginGroup', 2: 'EndGroup', 3: 'MathShift', 
 ALPHA7 = ['a', '@', '\\', '%', ' ', '\n', '^']
 ALPHA13 = ALPHA7 + ['{', '~', '\x00', 'Z', '1', '\xe9']
 STATE_PREFIXES = ['', 'x', 'x ', '\\ab', '\\ab ', '\\%', 'x\n', '\n\n', '%c\n', '^', '\\', 'x^^', '~']
+# (lexer state N, last delivered token = t) reached without an intervening space token:  [par] t %<newline>
+for _t in ['ab', '1', '\\ab', '\\%', '~', '{', '$']:
+    STATE_PREFIXES += [_t + '%\n', 'x\n\n' + _t + '%\n']
 
 
 def reset():
@@ -169,7 +172,7 @@ def ref_lex(e, chars, cat):
     return out
 
 
-def h_lex(e, L, table='default', re_alpha=None, nre=0, prefix='', lets=False):
+def h_lex(e, L, table='default', re_alpha=None, nre=0, prefix='', lets=False, re_codes=None):
     doc = TeXDocument()
     ctx = doc.context
     if table == 'atletter':
@@ -180,6 +183,8 @@ def h_lex(e, L, table='default', re_alpha=None, nre=0, prefix='', lets=False):
     for k in range(nre):
         ch = re_alpha[e.choice(len(re_alpha), 'rech%d' % k)]
         code = e.int('recode%d' % k, 0, 15)
+        if re_codes is not None:
+            e.assume(e.one_of(code, re_codes))
         ctx.catcode(ch, code)
         code = e.concretize(code.z) if e.symbolic else code
         overrides.append((ch, code))
@@ -221,6 +226,8 @@ def jobs(tier, seed):
         J.append(dict(harness='h_lex', params=dict(L=3, table='atletter'), split=14, label='atletter L=3'))
         J.append(dict(harness='h_lex', params=dict(L=3, table='verbatim'), split=4, label='verbatim L=3'))
         J.append(dict(harness='h_lex', params=dict(L=2, re_alpha=ALPHA7, nre=1), split=2, label='1 reassignment L=2'))
+        J.append(dict(harness='h_lex', params=dict(L=3, re_alpha=['a'], nre=1, re_codes=[0, 5, 7, 9, 14, 15]), split=8, label="'a' reassigned to a special class L=3"))
+        J.append(dict(harness='h_lex', params=dict(L=2, re_alpha=['a'], nre=2), split=4, label='same character reassigned twice L=2'))
         for p in STATE_PREFIXES:
             J.append(dict(harness='h_lex', params=dict(L=2, prefix=p), label='state-prefix %r L=2' % p))
         J.append(dict(harness='h_lex', params=dict(L=2, prefix='\\ab', lets=True), label='let alias L=2'))
@@ -230,6 +237,7 @@ def jobs(tier, seed):
         J.append(dict(harness='h_lex', params=dict(L=4, table='verbatim'), split=4, label='verbatim L=4'))
         J.append(dict(harness='h_lex', params=dict(L=3, re_alpha=ALPHA13, nre=1), split=3, label='1 reassignment L=3'))
         J.append(dict(harness='h_lex', params=dict(L=2, re_alpha=ALPHA7, nre=2), split=4, label='2 reassignments L=2'))
+        J.append(dict(harness='h_lex', params=dict(L=3, re_alpha=['a'], nre=2), split=6, label='same character reassigned twice L=3'))
         for p in STATE_PREFIXES:
             J.append(dict(harness='h_lex', params=dict(L=3, prefix=p), split=14, label='state-prefix %r L=3' % p))
         J.append(dict(harness='h_lex', params=dict(L=3, prefix='\\ab', lets=True), label='let alias L=3'))
